@@ -334,6 +334,11 @@ func (se *Session) raceReports(txt string) {
 			}
 		}
 		if len(arkFns) == 0 {
+			if len(se.Viol) > 0 {
+				// Goroutines that were handed wrong entities (reported above as par.exact)
+				// touch each other's partitions; that race is a consequence, not a harness bug.
+				continue
+			}
 			panic("parsim: race report without ark frames (harness race):\n" + b)
 		}
 		uniq := map[string]bool{}
